@@ -86,7 +86,7 @@ func NewWithContext(ctx context.Context, options ...ContainerOption) *Progress {
 		}
 	}
 
-	s.hm = make(heapManager, s.hmQueueLen)
+	s.hm = newHeapManager(s.hmQueueLen)
 
 	p := &Progress{
 		uwg:          s.uwg,
